@@ -766,3 +766,50 @@ def run_file_junk(ji, layout, allow):
         return True
     finally:
         FSM.os, FSM.io = saved
+
+
+# ---- content nested beyond the interpreter's recursion limit in the places the slot table does not reach: bundles inside bundles, a deep
+# custom value next to a granular marking (the selector walk), deep content in list elements
+def deep_structures(kind: int, route: int, allow: bool) -> bool:
+    """
+    pre: 0 <= kind <= 4 and 0 <= route <= 2
+    post: _
+    """
+    kind, route, allow = pick(kind, 5), pick(route, 3), pickb(allow)
+    with Native():
+        ok = run_deep_structure(kind, route, allow)
+    V.reached()
+    return ok
+
+
+def run_deep_structure(kind, route, allow):
+    n = DEEP_N
+    base = dict(IDENT)
+    if kind == 0:
+        doc = base
+        for _ in range(n):
+            doc = {"type": "bundle", "id": "bundle--311b2d2d-f010-4473-83ec-1edf84858f4c", "objects": [doc]}
+    elif kind == 1:
+        doc = dict(base, x_deep=_deep("dict"), granular_markings=[{"selectors": ["x_zzz"], "lang": "en"}])
+    elif kind == 2:
+        doc = dict(base, x_deep=_deep("list"), granular_markings=[{"selectors": ["name"], "marking_ref": "marking-definition--613f2e26-407d-48c7-9eca-b8e91df99dc9"}])
+    elif kind == 3:
+        doc = dict(base, labels=[_deep("list")], external_references=[{"source_name": "s", "external_id": _deep("dict")}])
+    else:
+        doc = {"type": "bundle", "id": "bundle--311b2d2d-f010-4473-83ec-1edf84858f4c", "objects": [dict(base, x_deep=_deep("dict")), _deep("dict")]}
+    before = reg_snapshot()
+    try:
+        if route == 0:
+            stix2.parse(doc, allow_custom=allow)
+        elif route == 1:
+            stix2.parse(doc, allow_custom=allow, version="2.1")
+        else:
+            cls = stix2.v21.Bundle if doc["type"] == "bundle" else stix2.v21.Identity
+            cls(allow_custom=allow, **{k: v for k, v in doc.items() if k != "type"})
+    except ALLOWED:
+        pass
+    except RecursionError:
+        return False
+    except Exception:  # noqa: BLE001
+        return False
+    return reg_snapshot() == before
